@@ -36,6 +36,8 @@ _WFN_H = ["zzzzz", "yzzzz", "yyzzz", "yyyzz", "yyyyz", "yyyyy", "xzzzz", "xyzzz"
           "xxzzz", "xxyzz", "xxyyz", "xxyyy", "xxxzz", "xxxyz", "xxxyy", "xxxxz", "xxxxy", "xxxxx"]
 
 DOCUMENTED = {
+    # Multiwfn manual, section 2.5: same order as Gaussian for s, p, d (Cartesian and spherical)
+    "mwfn": {(0, "c"): ["1"], (1, "c"): ["x", "y", "z"], (2, "c"): _GAUSS_D, (2, "p"): _pure(2)},
     "fchk": {(0, "c"): ["1"], (1, "c"): ["x", "y", "z"], (2, "c"): _GAUSS_D, (3, "c"): _GAUSS_F,
              **{(l, "p"): _pure(l) for l in range(2, 8)}},
     "molden": {(0, "c"): ["1"], (1, "c"): ["x", "y", "z"], (2, "c"): _GAUSS_D, (3, "c"): _GAUSS_F,
